@@ -471,10 +471,13 @@ AlphaGrid == {<<0, 1>>, <<1, 100>>, <<1, 20>>, <<1, 4>>, <<1, 2>>}
 \* settings explored with the plans of a family
 SettingsOf(fam) ==
   CASE fam = "cell"  -> {Setting("u", <<0, 1>>, "none", TRUE, FALSE)}
-    [] fam = "pair"  -> {Setting(t, a, "none", FALSE, FALSE) : t \in {"u", "t"}, a \in {<<1, 20>>, <<1, 4>>, <<1, 2>>}}
+    [] fam = "pair"  -> {Setting("u", a, "none", FALSE, FALSE) : a \in {<<1, 20>>, <<1, 4>>, <<1, 2>>}}
+                        \cup {Setting("t", a, "none", FALSE, FALSE) : a \in {<<1, 20>>, <<1, 2>>}}
                         \cup {Setting("none", <<0, 1>>, "none", FALSE, FALSE)}
-    [] fam = "small" -> {Setting(t, <<1, 2>>, o, TRUE, s) : t \in {"u", "none"}, o \in {"none", "name", "rdelta"}, s \in BOOLEAN}
-    [] fam = "smallx" -> {Setting(t, <<1, 2>>, o, TRUE, s) : t \in {"u", "none"}, o \in AllOrders, s \in BOOLEAN}
+    [] fam = "small" -> {Setting(t, <<1, 2>>, o, TRUE, s) : t \in {"u", "none"}, o \in {"name", "rdelta"}, s \in BOOLEAN}
+                        \cup {Setting("none", <<1, 2>>, "none", TRUE, s) : s \in BOOLEAN}
+    [] fam = "smallx" -> {Setting(t, <<1, 2>>, o, TRUE, s) : t \in {"u", "none"}, o \in {"name", "delta", "rname", "rdelta"}, s \in BOOLEAN}
+                        \cup {Setting("none", <<1, 2>>, "none", g, s) : g \in BOOLEAN, s \in BOOLEAN}
     [] fam = "sim"   -> {Setting(t, a, o, g, s) : t \in AllTests, a \in AlphaGrid, o \in AllOrders, g \in BOOLEAN, s \in BOOLEAN}
 AllSettings == UNION {SettingsOf(f) : f \in {"cell", "pair", "small", "smallx", "sim"}}
 
@@ -627,7 +630,7 @@ GeoOK(e) ==
       /\ \A a, b \in 1..Len(t.geo[c]) : a < b => t.geo[c][a] < t.geo[c][b]
 
 TypeOK ==
-  /\ plan \in Plans /\ (set = NoSet \/ set \in SettingsOf(plan.fam))
+  /\ (set = NoSet \/ set \in SettingsOf(plan.fam))
   /\ NC \in 1..Len(plan.lens)
   /\ \A c \in 1..NC : Len(cfgs[c]) <= plan.lens[c]
   /\ (set = NoSet) => cfgs = << <<>> >>
@@ -644,8 +647,8 @@ AllOKDone == TypeOK /\ (Done => \A e \in {Expected} : Lemmas(e))
 
 \* (1) "cell": every sequence of up to n values; one configuration, one benchmark.
 \* Every prefix is a collection of the family.
+CellVals4 == {0, 1, 2, 40}
 CellVals5 == {0, 1, 2, 7, 40}
-CellVals6 == {0, 1, 2, 3, 9, 40}
 CellPlans(n, V) == {Plan("cell", <<n>>, {1}, {1}, {0}, 1, <<V>>)}
 
 \* (2) "pair": one old/new row: every pair of multisets (sizes 1..n), tests, alphas, both
@@ -655,14 +658,14 @@ PairVals4 == {0, 1, 2, 5}
 PairPlans(n, V) == {Plan("pair", <<a, n>>, {1}, {u}, {0}, 1, <<V, V>>) : a \in 1..n, u \in {1, 2}}
 
 \* (3) "small": small collections, exhaustively: bookkeeping, row presence, orders, groups
-SmallShapes3 == {<<3>>, <<1, 2>>, <<2, 1>>, <<0, 3>>, <<1, 1, 1>>}
-SmallShapes4 == SmallShapes3 \cup {<<4>>, <<2, 2>>, <<1, 3>>, <<3, 1>>, <<2, 0, 2>>, <<1, 2, 1>>}
+SmallShapes3 == {<<3>>, <<1, 2>>, <<2, 1>>, <<1, 1, 1>>}
+SmallShapes4 == SmallShapes3 \cup {<<0, 3>>, <<4>>, <<2, 2>>, <<1, 3>>, <<3, 1>>, <<2, 0, 2>>, <<1, 2, 1>>}
 SmallPlans(fam, S, V) ==
   {Plan(fam, l, {1, 2}, {1, 2}, {0}, 1, [c \in 1..Len(l) |-> V]) : l \in S}
   \cup {Plan(fam, l, {1, 2}, {3}, {1, 2}, 1, [c \in 1..Len(l) |-> V]) : l \in S}
 
-QuickPlans    == CellPlans(6, CellVals5) \cup PairPlans(4, PairVals3) \cup SmallPlans("small", SmallShapes3, {1, 3})
-ThoroughPlans == CellPlans(7, CellVals6) \cup PairPlans(5, PairVals4) \cup SmallPlans("smallx", SmallShapes4, {1, 3})
+QuickPlans    == CellPlans(6, CellVals4) \cup PairPlans(4, PairVals3) \cup SmallPlans("small", SmallShapes3, {1, 3})
+ThoroughPlans == CellPlans(7, CellVals5) \cup PairPlans(5, PairVals4) \cup SmallPlans("smallx", SmallShapes4, {1, 3})
 
 \* (4) "sim": large collections, sampled with -simulate: 1..3 configurations, up to 3 names,
 \* 3 units, label groups, 1..2 measurements per line; value sets with an outlier, zeros,
